@@ -377,6 +377,17 @@ def obligations(tier, seed):
     # every unary operator applied to every unary operator (e.g. `not next A`, `always not A`)
     chosen += [((u1, (u2, ("atom", 0))), "top", 3) for u1 in UN for u2 in UN]
     chosen += [((u1, (u2, (u3, ("atom", 0)))), "top", 2) for u1 in UN for u2 in UN for u3 in UN]
+    # `until` evaluated from later positions and with operands whose verdict is still pending
+    A0, A1 = ("atom", 0), ("atom", 1)
+    U = ("until", A0, A1)
+    nested_until = [(u, U) for u in UN] + [("next", ("next", U)), ("always", ("next", U)), ("eventually", ("not", U))]
+    nested_until += [("until", A0, (t, A1)) for t in ("always", "eventually", "next")]
+    nested_until += [("until", (t, A0), A1) for t in ("always", "eventually", "next")]
+    nested_until += [("until", A0, ("until", A1, A0)), ("until", ("until", A0, A1), A0), ("until", A0, ("implies", A1, ("eventually", A0))),
+                     ("until", A0, ("and", A1, ("next", A0))), ("until", ("or", A0, ("next", A1)), A1),
+                     ("and", ("next", U), ("eventually", A0)), ("implies", A1, ("next", U))]
+    chosen += [(f, "top", 3 if tier == "quick" else 4) for f in nested_until]
+    chosen += [(f, w, 3) for f in nested_until[:4] for w in ("compose1", "sub")]
     # precedence: unparenthesised texts against the reference reading
     d3 = [f for f in formulas(2, 2) if depth_of(f) == 2 and is_temporal(f)]
     flats = []
